@@ -88,8 +88,18 @@ def seeded_run(case, unit, reuse=None):
             sim.run_monte_carlo(iterations=1, start_time=TimeStamp(), stop_time=stop, time_step=step, time_unit=c17.U(unit), callback=cb,
                                 save_dir=d, save_iterations=[1], debug=True)
     hist = {name: {round(float(t) * float(c17.FACT[unit] / 3600), 9): v for t, v in ps.history[name].items()} for name in ("ENS", "SAIDI", "SAIFI")}
+    mc = {}
+    if case.get("entry", "seq") != "seq":
+        # the Monte Carlo result files of the system and its networks (dimensionless or hour-valued indices)
+        import csv, os
+        for obj in [ps] + list(ps.child_network_list):
+            for name in ("ASUI", "ASAI", "SAIDI", "SAIFI", "ENS"):
+                f = os.path.join(d, "monte_carlo", obj.name, name + ".csv")
+                if os.path.exists(f):
+                    rows = list(csv.reader(open(f)))
+                    mc[(obj.name, name)] = [float(r_[1]) for r_ in rows[1:]]
     return {"fails": fails, "hist": hist, "ens": [float(b.acc_p_energy_shed) for b in ps.buses] + [float(x.SOC) for x in ps.batteries] + [float(e.acc_available_num_cars) for e in ps.ev_parks],
-            "outage": [round(b.acc_outage_time.get_hours(), 9) for b in ps.buses], "nlog": len(ps.history["ENS"])}
+            "outage": [round(b.acc_outage_time.get_hours(), 9) for b in ps.buses], "nlog": len(ps.history["ENS"]), "mc": mc}
 
 
 def seeded_case(case):
@@ -110,6 +120,11 @@ def seeded_case(case):
                 break
         if any(abs(x - y) > 1e-9 * max(1, abs(y)) for x, y in zip(r["ens"], base["ens"])) or r["outage"] != base["outage"]:
             viols.append(("unit.results", f"reporting unit {UNITS[u]} vs HOUR: energy not supplied / outage per bus differ: {r['ens']} vs {base['ens']}"))
+        for key, vals in base.get("mc", {}).items():
+            other = r.get("mc", {}).get(key)
+            if other is None or len(other) != len(vals) or any(abs(a - b) > 1e-9 * max(1, abs(b)) for a, b in zip(other, vals)):
+                viols.append(("unit.mc-index", f"reporting unit {UNITS[u]} vs HOUR: Monte Carlo {key[1]} of {key[0]} is {other}, in the hour run {vals}"))
+                break
         if sorted(r["hist"]["ENS"]) != sorted(base["hist"]["ENS"]):
             viols.append(("unit.axis", f"reporting unit {UNITS[u]}: logged instants (rescaled to hours) {sorted(r['hist']['ENS'])[:5]}... differ from the HOUR run {sorted(base['hist']['ENS'])[:5]}..."))
         else:
